@@ -105,7 +105,8 @@ CHECKS = {
               "ones) runs on the real writer under seeded compression types, buffer sizes and payload families (sizes around buffers and the "
               "4 KiB window, marker bytes, nil vs empty) and is read back sequentially, with read/skip programs, by offset and by SeekNext from "
               "every byte offset; long files, MiB payloads, direct-I/O writer; files laid out in the legacy format versions 1-3 (which the "
-              "library only reads) are read the same way; TLC judges every reply."),
+              "library only reads) are read the same way; every call sequence of depth 5 on one file writer / file reader / mmap reader in whatever phase it "
+              "is in (LibLifecycle.tla): valid calls must work and the file must hold exactly the acknowledged writes; TLC judges every reply."),
         design_ref="§5 C04",
         note="payloads embedding a complete valid record are excluded (precondition of any marker-scanning SeekNext)",
         technique="TLA+ spec + TLC exhaustive check; TLC-generated writer programs replayed x concretizations; trace validation by TLC",
